@@ -471,3 +471,182 @@ def check_fast_paths(ctx, rep, rule: str, funcs, entry_required: Optional[Dict[s
     rep.ok(rule, f"{'+'.join(mods)}:fast-path-scan", f"{n_funcs} handlers/entry functions scanned for returns of (a visited member of) their input")
     rep.analysed.setdefault("fast_path_functions", 0)
     rep.analysed["fast_path_functions"] += n_funcs
+
+
+# ---------------------------------------------------------------------- coercion of symbolic values
+def check_coercion(ctx, rep, rule: str, modules):
+    """In passes that must leave let constants symbolic, int()/float() of a value slot is applied only after an
+    isinstance test against plain number types: Constant implements __int__/__float__, so an unguarded coercion
+    silently freezes a let constant at its file value."""
+    from ..fieldflow import FuncFlow
+
+    ix, T = ctx.ix, ctx.typer
+    res = falsy_zero(ctx)
+    fz = res["engine"]
+    rep.rule(rule, "a pass other than let substitution coerces a value slot with int()/float() only under an isinstance test for plain numbers (Constant has __int__/__float__: unguarded coercion freezes a let constant, so overrides stop reaching it)", floor=1)
+    NUM = {"int", "float", "Integral", "Real", "Number", "bool"}
+    n = 0
+    for f in res["funcs"]:
+        if f.module not in modules or isinstance(f.node, ast.Lambda):
+            continue
+        fl = None
+        for c in walk_no_nested(f.node):
+            if not (isinstance(c, ast.Call) and isinstance(c.func, ast.Name) and c.func.id in ("int", "float") and c.args):
+                continue
+            a = c.args[0]
+            origin = fz.slot_origin(f, a)
+            if origin is None:
+                continue
+            n += 1
+            if fl is None:
+                fl = FuncFlow(ix, T, f)
+            tests = list(fl.control_tests(c))
+            # operands to the left in an enclosing `and`
+            node = c
+            while node is not None and not isinstance(node, ast.stmt):
+                par = fl.parent.get(id(node))
+                if isinstance(par, ast.BoolOp) and isinstance(par.op, ast.And):
+                    i = next((k for k, v in enumerate(par.values) if v is node), 0)
+                    tests += par.values[:i]
+                node = par
+            key = ast.unparse(a)
+            guarded = False
+            for t in tests:
+                for m in ast.walk(t):
+                    if isinstance(m, ast.Call) and isinstance(m.func, ast.Name) and m.func.id == "isinstance" and len(m.args) == 2 and ast.unparse(m.args[0]) == key:
+                        ts = m.args[1].elts if isinstance(m.args[1], ast.Tuple) else [m.args[1]]
+                        names = {ast.unparse(x).split(".")[-1] for x in ts}
+                        if names and names <= NUM:
+                            guarded = True
+            cons = construct_of(f, f"coercion:{ast.unparse(c)[:40]}")
+            loc = f"{f.path}:{c.lineno}"
+            if guarded:
+                rep.ok(rule, cons, f"`{ast.unparse(c)}` runs only after isinstance({key}, <plain number>)", loc)
+            else:
+                rep.violation(rule, cons, f"`{ast.unparse(c)}` coerces {origin} without an isinstance test for plain numbers: a let constant used there (Constant has __int__/__float__) is replaced by its file value, so `fill_in_let(override)` after this pass no longer reaches it", loc)
+    rep.analysed["coercion_sites"] = n
+
+
+# ---------------------------------------------------------------------- macro bodies come from the circuit's table
+def check_macro_table_lookup(ctx, rep, rule: str):
+    """expand_macros inlines the body found in the circuit's macro table (by name).  Other passes rebuild macros
+    without re-linking the call statements, so the Macro a statement carries (`gate.gate_def`) can be stale."""
+    from ..cfg import iter_stmts
+
+    ix, T = ctx.ix, ctx.typer
+    MOD = "jaqalpaq.core.algorithm.expand_macros"
+    rep.rule(rule, "the macro body inlined by expand_macros is the entry of the circuit's macro table, not the (possibly stale) definition object a call statement carries", floor=1)
+    sites = 0
+    for f in ix.functions.values():
+        if f.module != MOD or isinstance(f.node, ast.Lambda):
+            continue
+        # calls `<replacer>.visit(<macro expr>)` where the receiver was constructed in this function
+        ctor_names = set()
+        for st in iter_stmts(f.body):
+            if isinstance(st, ast.Assign) and isinstance(st.value, ast.Call):
+                for cs in T.callsites(f):
+                    if cs.node is st.value and cs.kind == "constructor" and cs.classes and T.is_visitor(cs.classes[0]):
+                        for t in st.targets:
+                            if isinstance(t, ast.Name):
+                                ctor_names.add(t.id)
+        for n in walk_no_nested(f.node):
+            if not (isinstance(n, ast.Call) and isinstance(n.func, ast.Attribute) and n.func.attr == "visit" and isinstance(n.func.value, ast.Name) and n.func.value.id in ctor_names and n.args):
+                continue
+            arg = n.args[0]
+            if isinstance(arg, ast.Name) and arg.id in f.params:
+                continue  # the pass entry point visiting the circuit itself
+            sites += 1
+            cons = construct_of(f, "inlined-macro-source")
+            loc = f"{f.path}:{n.lineno}"
+            srcs = [arg]
+            if isinstance(arg, ast.Name):
+                srcs = [st.value for st in iter_stmts(f.body) if isinstance(st, ast.Assign) and any(isinstance(t, ast.Name) and t.id == arg.id for t in st.targets)]
+            bad = [s_ for s_ in srcs if any(isinstance(m, ast.Attribute) and m.attr in ("gate_def", "_gate_def") for m in ast.walk(s_))]
+            table = [s_ for s_ in srcs if (isinstance(s_, ast.Subscript) or (isinstance(s_, ast.Call) and isinstance(s_.func, ast.Attribute) and s_.func.attr == "get")) and any(isinstance(m, ast.Name) and m.id == "macros" or isinstance(m, ast.Attribute) and m.attr == "macros" for m in ast.walk(s_))]
+            if bad:
+                rep.violation(rule, cons, f"`{ast.unparse(bad[0])}` makes the inlined body the one the call statement carries; expand_subcircuits / fill_in_map rebuild the table's macros but leave call statements pointing at the old objects, so `expand_macros(expand_subcircuits(c))` splices un-expanded subcircuit blocks back in", loc)
+            elif table and len(table) == len(srcs):
+                rep.ok(rule, cons, f"`{ast.unparse(table[0])}`: looked up by name in the macro table", loc)
+            else:
+                rep.undecided(rule, cons, "source of the inlined macro not recognised", loc)
+    if sites == 0:
+        raise AnalysisError(f"{rule}: no inlining site found in expand_macros (anchor vanished)")
+
+
+def check_macro_argument_binding(ctx, rep, rule: str):
+    """The substitution map handed to the replacer is keyed by the *macro's* parameter names (the macro found in the
+    table), not by whatever names the call statement carries (an anonymous definition names them p0, p1, ..)."""
+    from ..cfg import iter_stmts
+    from ..fieldflow import FuncFlow
+
+    ix, T = ctx.ix, ctx.typer
+    MOD = "jaqalpaq.core.algorithm.expand_macros"
+    rep.rule(rule, "call arguments are bound to the parameter names of the macro being inlined (not to the names carried by the call statement)", floor=1)
+    sites = 0
+    for f in ix.functions.values():
+        if f.module != MOD or isinstance(f.node, ast.Lambda):
+            continue
+        for cs in T.callsites(f):
+            if cs.kind != "constructor" or not cs.classes or not T.is_visitor(cs.classes[0]):
+                continue
+            cls = ix.classes[cs.classes[0]]
+            if "visit_Parameter" not in cls.methods or not cs.node.args:
+                continue
+            sites += 1
+            fl = FuncFlow(ix, T, f)
+            a0 = cs.node.args[0]
+            ids, roots = fl.depends(a0)
+            exprs = [a0] + list(roots)
+            # names of the macro: <macro>.parameters where <macro> is not the call statement (first parameter of f)
+            stmt = f.params[0] if f.params else None
+            keyed = any(isinstance(m, ast.Attribute) and m.attr == "parameters" and not (isinstance(m.value, ast.Name) and m.value.id == stmt) and not (isinstance(m.value, ast.Attribute) and m.value.attr == "gate_def")
+                        for e in exprs for m in ast.walk(e))
+            cons = construct_of(f, "argument-binding")
+            loc = f"{f.path}:{cs.node.lineno}"
+            if keyed:
+                rep.ok(rule, cons, f"`{ast.unparse(a0)}` is keyed by the inlined macro's parameters", loc)
+            else:
+                rep.violation(rule, cons, f"the replacer receives `{ast.unparse(a0)}`, keyed by the names the call statement carries: a call built before the macro was known (anonymous definition p0, p1, ..) leaves every parameter of the body unsubstituted, without an error", loc,
+                              witness="cb.macro('foo', ['a'], body_with('Px a')); cb.loop(2, block_with(('gate', 'foo', q[0]))); expand_macros(cb.build()) -> loop 2 { Px a }")
+    if sites == 0:
+        raise AnalysisError(f"{rule}: the replacer construction site vanished")
+
+
+def check_symbolic_qubits_left_alone(ctx, rep, rule: str):
+    """MapFiller visits macro bodies too; a qubit whose index or source is a macro parameter cannot be resolved
+    there, so the context-free `resolve_qubit()` must sit behind a test of the qubit's dependence on parameters."""
+    from ..fieldflow import FuncFlow
+    from ..cfg import iter_stmts
+
+    ix, T = ctx.ix, ctx.typer
+    rep.rule(rule, "alias fill-in resolves a qubit without a context only after testing that it does not depend on a macro parameter (macro bodies are visited too)", floor=1)
+    MOD = "jaqalpaq.core.algorithm.fill_in_map"
+    n = 0
+    for f in ix.functions.values():
+        if f.module != MOD or f.name != "visit_NamedQubit" or len(f.params) < 2:
+            continue
+        qb = f.params[1]
+        for c in walk_no_nested(f.node):
+            if not (isinstance(c, ast.Call) and isinstance(c.func, ast.Attribute) and c.func.attr == "resolve_qubit" and not c.args and not c.keywords):
+                continue
+            n += 1
+            cons = construct_of(f, "symbolic-qubit-guard")
+            loc = f"{f.path}:{c.lineno}"
+            guard = None
+            for st in iter_stmts(f.body):
+                if isinstance(st, ast.If) and st.lineno < c.lineno and any(isinstance(x, ast.Return) for x in st.body):
+                    mentions = any(isinstance(m, ast.Name) and m.id == qb for m in ast.walk(st.test))
+                    param_test = any(
+                        (isinstance(m, ast.Call) and isinstance(m.func, ast.Name) and m.func.id == "isinstance" and "Parameter" in ast.unparse(m.args[1]) if isinstance(m, ast.Call) and len(getattr(m, "args", [])) == 2 else False)
+                        or (isinstance(m, ast.Call) and isinstance(m.func, (ast.Name, ast.Attribute)) and "param" in ast.unparse(m.func).lower())
+                        for m in ast.walk(st.test))
+                    if mentions and param_test:
+                        guard = st
+            in_try = False
+            fl = FuncFlow(ix, T, f)
+            if guard is not None:
+                rep.ok(rule, cons, f"`{ast.unparse(guard.test)}` returns the qubit unchanged before the context-free resolution", loc)
+            else:
+                rep.violation(rule, cons, f"`{ast.unparse(c)}` is applied to every qubit, including `r[0]` / `q[i]` inside a macro body where r or i is a parameter: fill_in_map (and parse with expand_let_map=True) raises 'Unbound identifier' on a legal program", loc, witness="register q[2]\\nmacro foo i { Px q[i] }\\nfoo 0")
+    if n == 0:
+        raise AnalysisError(f"{rule}: MapFiller.visit_NamedQubit / resolve_qubit() site vanished")
